@@ -1,9 +1,10 @@
 #!/bin/sh
-# tools/run_all.sh [quick|thorough]  - runs every check of MANIFEST.json in sequence; prints one line per check
+# tools/run_all.sh [quick|thorough] ["C01 C02 ..."]  - runs every check of MANIFEST.json in sequence; prints one line per check
 T="${1:-quick}"
 cd "$(dirname "$0")/.."
 L="${TMPDIR:-/tmp}/runall_$T"; mkdir -p "$L"
-for id in C01 C02 C03 C04 C05 C06 C07 C08 C09 C10 C11 C12 C13 C14 C15 C16 C17 C18 C19 C20; do
+IDS="${2:-C01 C02 C03 C04 C05 C06 C07 C08 C09 C10 C11 C12 C13 C14 C15 C16 C17 C18 C19 C20}"
+for id in $IDS; do
   s=$(date +%s)
   ./check $id --tier $T > $L/$id.log 2>&1
   rc=$?
